@@ -452,3 +452,34 @@ def run(index, rep, tier):
                     rep.check(ok, "R10.12", m.qualname, "is_mutable set to a computed value: %s" % norm(v)[:40], fn_where(m, a), "%s: `%s`" % (m.name, norm_stmt(a)[:50]),
                               "%s sets the namespace's is_mutable to `%s`: anything other than False or the saved state `%s` itself can open a namespace that was immutable when it was handed to the reader - an unknown label in the source then adds a member to a namespace that must never gain members (and is re-locked afterwards, so nothing shows)" % (m.qualname, norm(v)[:50], sv))
         rep.floor("R10.12", "stores into is_mutable in the symbol mapper", 4, nst)
+
+    # ---- R10.13 None is not the string "None"
+    with rep.section("R10.13"):
+        rep.rule("R10.13", "None is not the string 'None': wherever the namespace code folds a label with str(x).lower() the statement is reachable only on a path that has excluded `x is None` - the stored side (Taxon.lower_cased_label) answers None for an unlabelled taxon, so a query folded to 'none' never finds the unlabelled member (require_taxon(None) adds another one every time) and does find a member that is labelled 'None'")
+        n13 = 0
+        for fi in index.functions_in_module("dendropy.datamodel.taxonmodel"):
+            g = cfg_of(fi)
+            for n in g.nodes:
+                for e in node_exprs(n):
+                    if e is None:
+                        continue
+                    for c in ast.walk(e):
+                        if isinstance(c, ast.Call) and isinstance(c.func, ast.Attribute) and c.func.attr in ("lower", "casefold", "upper") and isinstance(c.func.value, ast.Call) and call_name(c.func.value) == "str" and c.func.value.args:
+                            x = norm(c.func.value.args[0])
+                            n13 += 1
+                            # inside an IfExp / BoolOp that tests x against None in the same expression
+                            inline = any(isinstance(p, ast.IfExp) and isinstance(p.test, ast.Compare) and norm(p.test.left) == x and is_none(p.test.comparators[0]) and isinstance(p.test.ops[0], (ast.Is, ast.IsNot))
+                                         and any(q is c for q in ast.walk(p.body if isinstance(p.test.ops[0], ast.IsNot) else p.orelse)) for p in ast.walk(e))
+
+                            def none_edge(s, l, d, x=x):
+                                if s.kind == "test" and isinstance(s.ast, ast.Compare) and len(s.ast.ops) == 1 and norm(s.ast.left) == x and is_none(s.ast.comparators[0]):
+                                    if isinstance(s.ast.ops[0], ast.Is):
+                                        return l == "t"      # follow only the edge on which x IS None
+                                    if isinstance(s.ast.ops[0], ast.IsNot):
+                                        return l == "f"
+                                return True
+                            has_test = any(s.kind == "test" and isinstance(s.ast, ast.Compare) and len(s.ast.ops) == 1 and norm(s.ast.left) == x and is_none(s.ast.comparators[0]) and isinstance(s.ast.ops[0], (ast.Is, ast.IsNot)) for s in g.nodes)
+                            guarded = inline or (has_test and n not in g.reach([g.entry], follow_exc=False, edge_ok=none_edge))
+                            rep.check(guarded, "R10.13", fi.qualname, "`%s` folds None to the string 'none'" % norm(c), fn_where(fi, c), "%s: %s only for a label that is not None" % (fi.name, norm(c)),
+                                      "%s folds `%s` with `%s` without excluding None: an unlabelled taxon's folded label is None (Taxon.lower_cased_label), so the query None becomes 'none', never matches the unlabelled member - get_taxon(None) is None, has_taxon_label(None) is False, every require_taxon(None) adds a new member - and does match a member whose label is the string 'None'" % (fi.qualname, x, norm(c)))
+        rep.floor("R10.13", "str(x).lower() folds in the namespace code", 2, n13)
